@@ -50,9 +50,16 @@ Section RenderUnfold.
   Lemma render1_envwrap sl pre post body :
     render1 acc o sl (KEnvWrap pre post body) = pre ++ render acc o sl body ++ post.
   Proof. reflexivity. Qed.
+  (** what an accent is put over: the CONTENTS of a braced argument (no braces whatever
+      keep_braced_groups says), the rendering of a single-token argument *)
+  Definition accent_contents (sl : sls) (arg : core) : str :=
+    match arg with
+    | KGroup body => render acc o sl body
+    | _ => render1 acc o sl arg
+    end.
   Lemma render1_accent sl comb arg :
-    render1 acc o sl (KAccent comb arg) = flat_map (fun ch => acc ch comb) (py_strip (render1 acc o sl arg)).
-  Proof. reflexivity. Qed.
+    render1 acc o sl (KAccent comb arg) = flat_map (fun ch => acc ch comb) (py_strip (accent_contents sl arg)).
+  Proof. destruct arg; reflexivity. Qed.
   Lemma render1_math sl d dl dr verb body :
     render1 acc o sl (KMath d dl dr verb body) =
     match o_math o with
@@ -250,6 +257,33 @@ Section Main.
     repeat eexists; eauto using Ql_of_Forall.
   Qed.
 
+  (** the argument of an accent macro: [_groupnodecontents_to_text] of a recognised node is what the
+      specification puts the accent over *)
+  Lemma contents_sound x ka : P2 x -> abs x = Some ka ->
+    forall sl st, contents_text src lt cx o sl st x = (accent_contents acc o sl ka, st).
+  Proof.
+    intros [Hn HQ] Hx sl st. assert (Hn' := Hn ka Hx sl st).
+    destruct x.
+    - injection Hx as <-. exact Hn'.
+    - injection Hx as <-. exact Hn'.
+    - rewrite abstract_group in Hx. destruct (_ && _); [|discriminate Hx].
+      destruct body as [[]|]; cbn [abs_body option_map] in Hx; try discriminate Hx.
+      destruct (absl items) as [bd|] eqn:Eb; [|discriminate Hx]. injection Hx as <-.
+      cbn [contents_text accent_contents]. exact (HQ bd Eb sl st None None eq_refl).
+    - apply abstract_macro_inv in Hx as [(p1 & e1 & m1 & dl & dr & p2 & e2 & items & bd & -> & _ & _ & ->)
+                                        |[(Ha & r & _ & ->)|[(-> & _ & ->)|(x & comb & ka' & -> & _ & _ & ->)]]];
+        exact Hn'.
+    - rewrite abstract_env in Hx. destruct (transparent_env lt name).
+      + destruct (abs_body body); [|discriminate Hx]. injection Hx as <-. exact Hn'.
+      + destruct (wrap_env lt name) as [[pre post]|]; [|discriminate Hx].
+        destruct (abs_body body); [|discriminate Hx]. injection Hx as <-. exact Hn'.
+    - cbn [abstract] in Hx. destruct (assoc (lt_specials lt) chars).
+      + destruct (specials_repl lt chars); [|discriminate Hx]. injection Hx as <-. exact Hn'.
+      + injection Hx as <-. destruct (str_eqb chars _); exact Hn'.
+    - rewrite abstract_math in Hx. destruct (abs_body body); [|discriminate Hx]. injection Hx as <-. exact Hn'.
+    - discriminate Hx.
+  Qed.
+
   Theorem abstract_sound_P2 : forall n, P2 n.
   Proof.
     induction n using node_ind'.
@@ -272,8 +306,9 @@ Section Main.
         rewrite (HQ bd Ei sl st None None eq_refl). reflexivity.
       + now apply node_text_macro_symbol.
       + now apply node_text_macro_item.
-      + cbn [Pargs] in H. apply Forall_inv in H. cbn [Pslot] in H. destruct H as [Hn _].
-        rewrite (node_text_macro_accent src lt cx o sl st p e m nm ps x comb Hacc), (Hn ka Hx sl st).
+      + cbn [Pargs] in H. apply Forall_inv in H. cbn [Pslot] in H.
+        rewrite (node_text_macro_accent src lt cx o sl st p e m nm ps x comb Hacc),
+                (contents_sound x ka H Hx sl st), render1_accent.
         reflexivity.
     - split; [|exact I]. intros k Hk sl st. rewrite abstract_env in Hk.
       destruct (transparent_env lt nm) eqn:Etr.
